@@ -13,6 +13,14 @@ use crate::{u8sum, Aml, AmlSink, Checksum, TableHeader};
 #[derive(Copy, Clone)]
 pub struct IommuOffset(u32);
 
+#[cfg(rust_vmm_acpi_tables_verif)]
+impl IommuOffset {
+    /// Verification hook: expose the offset value carried by the handle.
+    pub fn verif_value(&self) -> u32 {
+        self.0
+    }
+}
+
 pub struct RIMT {
     header: TableHeader,
     checksum: Checksum,
